@@ -64,6 +64,7 @@ pub fn events_fnv(ev: &[vh::Event]) -> u64 {
 pub fn case(ops: &[vh::Op], label: &str, with_requests: bool) -> CaseOut {
     let mut out = CaseOut::default();
     let replay = format!("codec {}", wire::ops_str(ops));
+    crate::util::in_flight(&replay);
     let fail = |sig: String, detail: String| Failure { kind: "oracle".into(), signature: sig, detail: format!("{detail} [{label}]"), replay: replay.clone() };
     match guarded(|| {
         let bytes = vh::cabac_encode(ops);
